@@ -136,7 +136,9 @@ def run_e2e(c):
     pre = [rng.choice(HEADER_POOL) + rng.choice(['', ' %d' % rng.randint(0, 999)]) for _ in range(c['headers'])]
     if c['headers'] >= 3:
         pre.insert(1, '')   # a blank line carries no text and is not reported
-    script = {'banner': line, 'pre': pre, 'eol': c['eol'], 'kex': audit.sym_kex(['curve25519-sha256'], ['ssh-ed25519'], ['aes128-ctr'], ['hmac-sha2-256']), 'hostkeys': {}, 'gex': None}
+    probes = c['seed'] % 2 == 0   # half of the peers answer host-key and group-exchange probes, so the tool reconnects several times and sees the header lines again
+    script = {'banner': line, 'pre': pre, 'eol': c['eol'], 'kex': audit.sym_kex(['curve25519-sha256'] + (['diffie-hellman-group-exchange-sha256'] if probes else []), ['ssh-ed25519', 'ssh-rsa'], ['aes128-ctr'], ['hmac-sha2-256']),
+              'hostkeys': {'ssh-ed25519': {'type': 'ed25519'}, 'ssh-rsa': {'type': 'rsa', 'bits': 3072}} if probes else {}, 'gex': {'sizes': [3072], 'style': 'strict'} if probes else None}
     total = sum(len(wire.nb(x)) + 2 for x in pre) + len(wire.nb(line)) + 2
     if total > 1900:
         return [], {'e2e_skipped_long': 1}
@@ -163,7 +165,8 @@ def run_e2e(c):
             viol.append(_v('C16/e2e-banner-line', 'banner line differs from what was sent (sanitised)', line=line, got=rep.gen_value('banner'), want=rendered))
         heads = [h.rstrip() for h in pre if h.strip()]
         if heads:
-            block = '(gen) header: ' + '\n'.join(heads) + '\n'
+            # exactly these lines, once, and then the banner line (a header reported twice would still contain the block)
+            block = '(gen) header: ' + '\n'.join(heads) + '\n(gen) banner: '
             if block not in r.out:
                 viol.append(_v('C16/e2e-header', 'header lines not reported in order as header text', pre=pre, out=r.out[:400]))
         elif '(gen) header:' in r.out:
